@@ -64,7 +64,7 @@ func genPrim(rt *rapid.T, label string) sim.Val {
 }
 
 var keyPoolPlain = []string{"a", "b", "c", "d", "e", "f"}
-var keyPoolHostile = []string{"a", "b", "k/1", "~", "~0", "~1", "-", "0", "1", "x y", "é", "\U0001F600", "q\"", "A", ""}
+var keyPoolHostile = []string{"a", "b", "k/1", "~", "~0", "~1", "-", "0", "1", "x y", "é", "\U0001F600", "q\"", "A", "", "_id", "_orda_ver_"}
 
 // genJSONVal draws a JSON-like value of bounded depth; containers are map[string]interface{} and
 // []interface{}.
